@@ -181,4 +181,22 @@ def BufR.readSeq (f : Framing) : Nat → BufR → List (Option Tok)
 /-- `forChildren` makes its replay buffer itself, per call: dispatch `i` owns slot `i` -/
 def Flight.own (fl : Flight) : Prop := ∀ i, (fl.rds i).slot = i
 
+/-! ### a reader that fails in the middle of a stanza -/
+
+/-- `forChildren` over a reader that hands out the stanza's first `cut` tokens (the start element
+included) and then fails with an error other than `io.EOF` on every further call: the handlers
+of the children whose start tag arrived are invoked, each sees what arrived; the iterator's error
+is returned (not the handlers' errors) and the type wildcard is not consulted.  The list is the
+calls made; the dispatch always returns the reader's error. -/
+def forChildrenCut (tbl : Table) (k : Kind) (typ : String) (stanza : List Tok) (cons : List Nat)
+    (cut : Nat) : List Call :=
+  match stanza.take cut with
+  | [] => []
+  | start :: body =>
+    (dispatchChildrenG (BR.stepRead .sep) tbl k typ (children (start :: body)) cons
+      { buf := [start], rest := body }).1
+
+def stanzaRouteCut (tbl : Table) (k : Kind) (stanza : List Tok) (cons : List Nat) (cut : Nat) : List Call :=
+  forChildrenCut tbl k (stanzaHdr k (startAttrs stanza)).typ stanza cons cut
+
 end XmppModel.Mux
